@@ -126,6 +126,14 @@ CLAIMED = {
             'against assumed kvxopt/SciPy contracts. Cross-back-end numeric agreement and bit-identity are not decided.',
             'DESIGN.md 4/C16', 'kvxopt/SuiteSparse/SciPy contracts assumed; matrices uninterpreted',
             'contract-based deductive verification: symbolic execution over uninterpreted matrix sorts + SMT'),
+    'C08': ('proof',
+            'EIG._store_stats (the three masks partition the eigenvalues; fixed F2), find_zero_states (exactly the zero-Tf '
+            'positions), _reduce (T^-1(fx - fy gy^-1 gx) as a ring-level identity with T zeros replaced by one), calc_pfactor '
+            '(pf[mode k, state i] = |W||N| / column sum, loop invariant over the normalisation; fixed F3), _pre_check / run '
+            '(refusal after a failed power flow; fixed F16). calc_As with zero time constants (_reorder) is a bounded sampled '
+            'stand-in and a known finding (F4).',
+            'DESIGN.md 4/C08', 'LAPACK / kvxopt contracts assumed; counting and sum lemmas stated',
+            'contract-based deductive verification (symbolic execution + SMT) plus a labelled bounded stand-in'),
 }
 
 ALL = ['C%02d' % i for i in range(1, 21)]
